@@ -35,7 +35,7 @@ class Pair:
                  provider_ssl=None, consumer_ssl=None, force_ssl=False, role_provider='example',
                  max_subscription_duration=7200, shared_server=True, keep_ctx_states=False, consumer_init_mdib=True,
                  alternative_hostname=None, deferred_dispatch=False, instance_id=1, sequence_id=None,
-                 periodic_reports_interval=None):
+                 periodic_reports_interval=None, transport='loopback', encodings=('gzip',), chunk_size=0):
         _load_repo()
         from sdc11073.consumer.consumerimpl import SdcConsumer, default_components_factory
         from sdc11073.definitions_sdc import SdcV1Definitions
@@ -51,6 +51,12 @@ class Pair:
 
         self.net = Network()
         self.wsd = NullWsDiscovery()
+        # transport 'fullstack': the real SoapClient on an in-memory connection answered by the real HTTP request
+        # handler (sync managers only: the async manager's aiohttp client stays on the plain loop-back transport)
+        full = transport == 'fullstack'
+        if full:
+            from .fullstack import mk_fullstack_client_class
+        mk_sync_class = mk_fullstack_client_class if full else mk_client_class
         if mdib is None:
             mdib = ProviderMdib.from_mdib_file(fixture)
             if not keep_ctx_states:
@@ -61,7 +67,7 @@ class Pair:
             mdib.sequence_id = sequence_id
         self.mdib = mdib
         comps = provider_components_async_factory() if async_mgr else provider_components_sync_factory()
-        comps.soap_client_class = mk_client_class(self.net, 'provider')
+        comps.soap_client_class = (mk_client_class if async_mgr else mk_sync_class)(self.net, 'provider')
         if reference_params:
             cls = SubscriptionsManagerReferenceParamAsync if async_mgr else ReferenceParamSubscriptionsManager
             comps.subscriptions_manager_class = {'StateEvent': cls, 'Set': cls}
@@ -79,23 +85,34 @@ class Pair:
                                     ssl_context_container=provider_ssl,
                                     max_subscription_duration=max_subscription_duration, components=comps,
                                     role_provider_components=role_components,
-                                    alternative_hostname=alternative_hostname)
+                                    alternative_hostname=alternative_hostname, chunk_size=chunk_size if full else 0)
         p_scheme = 'https' if provider_ssl is not None else 'http'
         self.pserver = FakeHttpServer(self.net, '127.0.0.1', 10001, p_scheme)
+        if full:
+            self.pserver.supported_encodings, self.pserver.chunk_size = list(encodings), chunk_size
         self.provider.start_all(start_rtsample_loop=False, shared_http_server=self.pserver,
                                 periodic_reports_interval=periodic_reports_interval)
+        # no autonomous device activity: the tutorial alarm provider re-checks the alert systems from a worker thread and
+        # commits a transaction every few seconds - in the middle of whatever a harness is observing
+        for product in self.provider.product_lookup.values():
+            for role in getattr(product, '_ordered_role_providers', []):
+                if hasattr(role, '_stop_worker'):
+                    role._stop_worker.set()  # noqa: SLF001
         self.consumer = None
         self.cmdib = None
         if with_consumer:
             ccomps = default_components_factory()
-            ccomps.soap_client_class = mk_client_class(self.net, 'consumer')
+            ccomps.soap_client_class = mk_sync_class(self.net, 'consumer')
             if not deferred_dispatch:
                 ccomps.action_dispatcher_class = RequestDispatcher
             x_addr = self.provider.get_xaddrs()[0]
             self.consumer = SdcConsumer(x_addr, SdcV1Definitions, consumer_ssl, epr=uuid.UUID(int=2),
-                                        validate=True, components=ccomps, force_ssl_connect=force_ssl)
+                                        validate=True, components=ccomps, force_ssl_connect=force_ssl,
+                                        request_chunk_size=chunk_size if full else 0)
             c_scheme = 'https' if (consumer_ssl is not None) else 'http'
             self.cserver = FakeHttpServer(self.net, '127.0.0.1', 10002, c_scheme)
+            if full:
+                self.cserver.supported_encodings, self.cserver.chunk_size = list(encodings), chunk_size
             self.consumer.start_all(shared_http_server=self.cserver, fixed_renew_interval=100000)
             if consumer_init_mdib:
                 self.cmdib = ConsumerMdib(self.consumer)
